@@ -239,6 +239,24 @@ func VerifC11Crash(op int, pre int, mcap int) {
 	} else {
 		vrf.Assert("after-crash-all-or-nothing", vrfSame(got, before) || vrfSame(got, after))
 	}
+	// the restarted store keeps working on what it found: an update that makes the index shorter
+	// (remove the oldest message) or rewrites it (mark it seen) must leave a readable mailbox
+	if len(got) > 0 {
+		switch vrf.Fork(vrf.Int("after_op", 0, 2)) {
+		case 1:
+			vrf.Assert("after-crash-remove-works", st2.RemoveMessage("alpha", got[0].id) == nil)
+			got = got[1:]
+		case 2:
+			vrf.Assert("after-crash-markseen-works", st2.MarkSeen("alpha", got[0].id) == nil)
+			got = append([]vrfObs(nil), got...)
+			got[0].seen = true
+		}
+		got1, ok := vrfObserve(st2, "alpha")
+		if !ok {
+			return
+		}
+		vrf.Assert("after-crash-later-update-visible", vrfSame(got1, got))
+	}
 	// the mailbox accepts new mail
 	fb := vrf.Byte("final_byte")
 	fid, ferr := deliver(st2, "alpha", "f", fb)
